@@ -7,13 +7,13 @@
      mm      : every assignment of {none, current hash, stale hash} to two versioned files and one unversioned file *)
 EXTENDS Conflicts, TLC, Json, IOUtils
 CONSTANTS MaxList,      \* longest conflict list
-          Full          \* TRUE: all singles; FALSE: singles restricted to two paths and no "fx" ids
+          Full          \* TRUE: all singles; FALSE: singles restricted to two paths and file ids {none, id of a}
 A == <<"a">>  D == <<"d">>  DA == <<"d", "a">>  E == <<"e">>  DDA == <<"d", "d", "a">>  Root == <<>>
 \* the real tree: versioned a, d, d/a, d/d, d/d/a; e exists but is not versioned
 Tree == << [path |-> Root, id |-> "froot"], [path |-> A, id |-> "fa"], [path |-> D, id |-> "fd"],
            [path |-> DA, id |-> "fda"], [path |-> <<"d", "d">>, id |-> "fdd"], [path |-> DDA, id |-> "fdda"] >>
 CPaths == IF Full THEN {A, D, DA, E, DDA} ELSE {A, DA}               \* paths a conflict may mention
-Fids == IF Full THEN {None, "fa", "fd", "fx"} ELSE {None, "fa", "fd"}
+Fids == IF Full THEN {None, "fa", "fd", "fx"} ELSE {None, "fa"}
 SelPaths == {Root, A, D, DA, E}                                       \* paths given to select / resolve
 Act(t) == IF t \in ActionTypes THEN {"act1"} ELSE {None}
 Singles ==
